@@ -143,6 +143,24 @@ theorem C02_exhaustion {cfg : Config S} (hdt : 0 ≤ cfg.dt) {P : NodeId → Pro
   have := C02_exec_exactly_once hdt h
   rwa [hq, List.append_nil] at this
 
+/-- What an EXTERNAL controller does between two steps is accounted for like everything else: after any
+    request program issued through a node's provider from outside any callback, at any moment of the run,
+    executed ++ queued is still a duplicate-free permutation of the accepted requests; and a request
+    such a program has refused leaves the event loop untouched (the program's world only grows by
+    accepted events). -/
+theorem C02_external_requests_accounted {cfg : Config S} (hdt : 0 ≤ cfg.dt) {P : NodeId → Proto S σ}
+    {w : World S σ} (h : Reachable cfg P w) (n : NodeId) (p : Prog S σ) :
+    ((runProg cfg n p w).1.rexecuted ++ (runProg cfg n p w).1.loop.queue).Perm (runProg cfg n p w).1.raccepted ∧
+    ((runProg cfg n p w).1.executed ++ (runProg cfg n p w).1.loop.queue).Pairwise keyLt ∧
+    (runProg cfg n p w).1.rexecuted = w.rexecuted ∧ (runProg cfg n p w).1.loop.now = w.loop.now :=
+  ⟨C02_exec_exactly_once hdt (h.ext n p), C02_no_duplicates hdt (h.ext n p),
+    (ext_runProg cfg n p w).exec_eq, (ext_runProg cfg n p w).now_eq⟩
+
+/-- non-vacuity of the above: steps and external programs interleave freely -/
+example (cfg : Config S) (P : NodeId → Proto S σ) (n : NodeId) (p q : Prog S σ) :
+    Reachable cfg P (step cfg P (runProg cfg n q (step cfg P (runProg cfg n p (init cfg P)).1).1).1).1 :=
+  (((Reachable.init.ext n p).step).ext n q).step
+
 /-- non-vacuity: a three-call history whose invariant instance is non-trivial -/
 example : ((EL.empty : EL Nat).run [.schedule 5 0, .schedule 5 1, .pop]).1.len = 1 := by decide
 
